@@ -305,6 +305,7 @@ def _child(pid, proc, spec, cache, chan):
             note("exit")
 
     CL.__enter__, CL.__exit__ = enter, exit_
+    tempfile.tempdir = os.path.join(os.path.dirname(cache), "systmp")   # downloads of a killed refresh stay in the scratch
     hed_cache.INSTALLED_CACHE_LOCATION = bundle_dir
     hed_cache.HED_CACHE_DIRECTORY = cache
     hed_schema_io._load_schema_version.cache_clear()
@@ -365,6 +366,7 @@ def simulate(spec):
     scratch = tempfile.mkdtemp(prefix="hedverif_c19_")
     cache = os.path.join(scratch, "cache")
     os.makedirs(cache)
+    os.makedirs(os.path.join(scratch, "systmp"))
     kids, log, trace, actions = [], [], [], []
     sizes = {n: len(env.bytes[n]) for n in order_names}
     torn_seen = set()
